@@ -217,7 +217,8 @@ class PKESessionKeyV3(PKESessionKey):
         return sk
 
     def decrypt_sk(self, pk):
-        if self.pkalg == PubKeyAlgorithm.RSAEncryptOrSign:
+        # RSA Encrypt-Only (2) is deprecated for new keys, but it is the same algorithm (RFC 4880 9.1, 13.5)
+        if self.pkalg in (PubKeyAlgorithm.RSAEncryptOrSign, PubKeyAlgorithm.RSAEncrypt):
             # pad up ct with null bytes if necessary
             ct = self.ct.me_mod_n.to_mpibytes()[2:]
             # I2OSP (RFC 3447 4.1): the ciphertext is as long as the modulus, whose bit length need not be a multiple of 8
@@ -266,7 +267,7 @@ class PKESessionKeyV3(PKESessionKey):
         m = bytearray(self.int_to_bytes(symalg) + symkey)
         m += self.int_to_bytes(sum(bytearray(symkey)) % 65536, 2)
 
-        if self.pkalg == PubKeyAlgorithm.RSAEncryptOrSign:
+        if self.pkalg in (PubKeyAlgorithm.RSAEncryptOrSign, PubKeyAlgorithm.RSAEncrypt):
             encrypter = pk.keymaterial.__pubkey__().encrypt
             encargs = (bytes(m), padding.PKCS1v15(),)
 
